@@ -609,7 +609,7 @@ Proof.
   - assert (S : same_run (read_stream f remote v) (read_stream (with_ocsp f) remote v)).
     { unfold read_stream. apply same_run_seq; [apply same_run_refl|]. apply same_run_seq; [apply same_run_refl|]. apply verify_store_free; auto. }
     rewrite (S e 0) in H. exact (cancel_propagates _ (read_stream_pass _ remote v Hh' Ho') e 0 tr lg r H).
-  - rewrite (verify_store_free f v Hv e 0) in H.
+  - unfold read_sidecar in H. rewrite (verify_store_free f v Hv e 0) in H.
     exact (cancel_propagates _ (verify_store_pass _ v Hh' Ho') e 0 tr lg r H).
   - assert (S : same_run (ingredient_import f remote v) (ingredient_import (with_ocsp f) remote v)).
     { unfold ingredient_import. apply same_run_seq; [apply same_run_refl|]. cbn [with_ocsp ingredient_status_pass].
@@ -623,4 +623,18 @@ Proof.
     { unfold sign_embeddable. repeat (apply same_run_seq; [apply same_run_refl|]).
       destruct v as [v|]; [|apply same_run_refl]. apply same_run_strict. apply verify_store_free; auto. }
     rewrite (S e 0) in H. exact (cancel_propagates _ (sign_embeddable_pass _ h v Hh' Ho') e 0 tr lg r H).
+Qed.
+
+Lemma no_ocsp_status f :
+  if hash_arms_pass f && ingredient_status_pass f
+  then forall o,
+    (exists remote v, vshape_ocsp_free v = true /\ (o = read_stream f remote v \/ o = read_sidecar f v \/ o = ingredient_import f remote v)) \/
+    (exists s, opt_free (s_verify s) = true /\ o = sign_stream f s) \/
+    (exists h v, opt_free v = true /\ o = sign_embeddable f h v) ->
+    forall e tr lg r, run e o 0 = (tr, lg, r) ->
+      Exists (fun t => requested e (t_idx t) = true) tr -> r = RCancel
+  else True.
+Proof.
+  destruct (hash_arms_pass f && ingredient_status_pass f) eqn:E; [|exact I].
+  apply andb_prop in E as [Hh Hi]. exact (no_ocsp_propagates f Hh Hi).
 Qed.
